@@ -164,6 +164,29 @@ check('C07',
       'Per path the script is compiled once and only the MOVEQ literal is substituted; rgb percentages outside 0..100 are checked for range only (they name no colour).',
       'DESIGN.md C07')
 
+check('C14',
+      'bounded-exhaustive enumeration of (register contents x chains of units statements) as pairs of executions on the real VM',
+      'For every start state of the grid (hue 0..360 step 7.5 x 4 saturations x 3 brightnesses; raw boundary values cubed; rgb percentages cubed; time/duration sets) '
+      'and every chain of <=3 (thorough 4) units statements the script is run with and without the chain: transmitted colour equal within one raw unit (as colours through rgb / '
+      'degenerate), duration and pending delay equal to the ms, kelvin bit-identical; the registers rewritten by each switch (all 9 printed before and after) are within the manual\'s table; '
+      'a switch to the current mode changes nothing.',
+      'Differential oracle (two executions), no reference arithmetic involved.',
+      'DESIGN.md C14')
+check('C15',
+      'bounded-exhaustive enumeration of zone ranges and stage-rectangle sequences on several strip lengths / matrix sizes vs reference painting',
+      'Every zone a / a..b on strips of 1,2,8,16 zones; on matrices 1x1, 2x3, 3x2, 6x5 every inclusive rectangle with either end omitted in the one-line and one-stage-block forms '
+      '(rows/columns in either order; literal/variable/expression bounds), every sequence of <=2 (thorough 3; 6x5: pairs) stage rectangles with and without a saved default, loop-index '
+      'and routine stages, in all three unit modes with non-integral values: exactly one zone/tile message per set with exactly the reference cells and converted colours.',
+      'Reference painting in mc/lang/ref.py; conversion per C07\'s rule; reversed/out-of-range ranges outside the alphabet.',
+      'DESIGN.md C15')
+check('C18',
+      'bounded-exhaustive enumeration of captured states / populations / names through capture -> text -> compile -> run round trips',
+      'Each raw component over all 65 536 values (two backgrounds), all 6^4 boundary combinations x power x {plain, 2-zone strip, 2x2 matrix} x replay-time states, all populations '
+      'of <=3 lights over 9 light kinds (strips of 1,2,8,9,17 zones; matrices 1x1,2x2,6x5) x states x replay-time states, every printable Latin-1 character in 4 name positions x 3 '
+      'light kinds: the generated script compiles and restores every captured colour, power, zone and cell.',
+      'Capture through the real ScriptSnapshot/LightSet/lifx_lan_light over simulated devices.',
+      'DESIGN.md C18')
+
 NOT_YET = 'check not built yet in this session (design in DESIGN.md); will be claimed when its command exists'
 
 
